@@ -89,7 +89,7 @@ def finish(meta, src, sid):
     if meta.get('confirmed'):
         os.makedirs(d, exist_ok=True)
         for f in ('patch.diff', 'demo.cpp', 'notes.txt'):
-            if os.path.exists(os.path.join(src, f)):
+            if os.path.exists(os.path.join(src, f)) and os.path.abspath(os.path.join(src, f)) != os.path.abspath(os.path.join(d, f)):
                 shutil.copy(os.path.join(src, f), os.path.join(d, f))
         json.dump(meta, open(os.path.join(d, 'meta.json'), 'w'), indent=1)
     print('caught by:', meta.get('caught_by'))
